@@ -202,6 +202,11 @@ def write_evidence(mod, prop_id, tier, seed, agg, bounds, samples, wall,
         'work_items': nitems,
         'replay_identical': agg['replay_checked'],
         'exhaustive': (not stopped_early) and agg['capped'] == 0,
+        'exhaustive_scope': "the generated scenario / input space of this "
+                            "tier, and for engine A every schedule within the "
+                            "reported deviation bounds (all schedules for the "
+                            "scenarios counted in exhausted_scenarios and for "
+                            "twin relations); not the unbounded space",
         'caps_hit': agg['capped'],
         'known_findings_matched': nknown,
     }
